@@ -1,10 +1,12 @@
 package main
 
 import (
+	"fmt"
 	"go/ast"
 	"go/types"
 	"strings"
 
+	"golang.org/x/tools/go/cfg"
 	"golang.org/x/tools/go/ssa"
 )
 
@@ -18,6 +20,7 @@ func init() {
 		Run:         runC10,
 	})
 	ruleText["R10.1"] = "in every function that calls (*Interpreter).run (Execute, importSrc), interp.frame.setrunid(interp.runid()) dominates every such call"
+	ruleText["R10.3"] = "every reflect.Select in a run-time closure has a case loaded, at execution time, from frame.done of the frame it runs in (never a cancellation case cached in per-statement state by an earlier evaluation)"
 	ruleText["R10.2"] = "in a function literal passed to reflect.MakeFunc, the id passed to newFrame is not the runid() of a frame captured at creation time (a free variable): such an id is frozen while stop() advances the interpreter's id forever"
 }
 
@@ -29,6 +32,28 @@ func runC10(c *Config, r *Report) {
 	}
 	// R10.1: every function that starts execution on the root frame refreshes its id first.
 	frameFld := ic.field("Interpreter", "frame")
+	// helpers that refresh the root frame id on every path to their exit count as a refresh
+	alwaysRefresh := map[*types.Func]bool{}
+	for _, name := range sortedKeys(ic.F) {
+		fi := ic.F[name]
+		if fi.Decl.Body == nil || fi.Obj == nil {
+			continue
+		}
+		rf := findRefresh(ic, fi.Decl.Body, frameFld, nil)
+		if rf == nil {
+			continue
+		}
+		fg := buildFlow(fi.Decl.Body, ic.Info)
+		if len(fg.G.Blocks) == 0 {
+			continue
+		}
+		// no path from the entry to an exit avoiding the refresh
+		entry := fi.Decl.Body.Lbrace
+		_ = entry
+		if !exitWithoutFromEntry(fg, func(n ast.Node) bool { return containsNode(n, rf) }) {
+			alwaysRefresh[fi.Obj] = true
+		}
+	}
 	starters := 0
 	for _, name := range sortedKeys(ic.F) {
 		ex := ic.F[name]
@@ -40,21 +65,7 @@ func runC10(c *Config, r *Report) {
 			continue
 		}
 		starters++
-		var refresh ast.Node
-		ast.Inspect(ex.Decl.Body, func(n ast.Node) bool {
-			c, ok := n.(*ast.CallExpr)
-			if !ok || !isCallTo(ic.Info, c, "interp.frame.setrunid") || len(c.Args) != 1 {
-				return true
-			}
-			se := unparen(c.Fun).(*ast.SelectorExpr)
-			if selField(ic.Info, se.X) != frameFld {
-				return true
-			}
-			if a, ok := unparen(c.Args[0]).(*ast.CallExpr); ok && isCallTo(ic.Info, a, "interp.Interpreter.runid") {
-				refresh = c
-			}
-			return true
-		})
+		refresh := findRefresh(ic, ex.Decl.Body, frameFld, alwaysRefresh)
 		key := name + "/refresh"
 		if refresh == nil {
 			r.Fail("R10.1", key, ic.pos(ex.Decl.Pos()), name+" runs code on the root frame but never refreshes the root frame's run id from the interpreter's current id: after one cancelled evaluation the package-level code it runs is silently skipped")
@@ -75,6 +86,8 @@ func runC10(c *Config, r *Report) {
 	if starters < 2 {
 		r.Errorf("R10.1: %d functions calling (*Interpreter).run found; Execute and importSrc are expected", starters)
 	}
+	// R10.3: blocking operations use the done case of the frame they run in.
+	c10R3(ic, r)
 	// R10.2
 	g := buildSGraph(ic.SP)
 	newFrame := ic.SP.Func("newFrame")
@@ -100,24 +113,32 @@ func runC10(c *Config, r *Report) {
 					continue
 				}
 				n++
-				key := ssaFuncName(root) + "/makefunc-frame-id"
+				base := ssaFuncName(root) + "/makefunc-frame-id"
 				id := call.Call.Args[2]
-				stale := ""
+				bad := false
 				for _, o := range origins(id, map[ssa.Value]bool{}) {
-					oc, ok := o.(*ssa.Call)
-					if !ok {
-						continue
-					}
-					if staticCalleeName(&oc.Call) == "interp.(*frame).runid" {
-						for _, ro := range origins(oc.Call.Args[0], map[ssa.Value]bool{}) {
-							if isCaptured(ro) {
-								stale = describeValue(ro)
+					switch x := o.(type) {
+					case *ssa.Call:
+						if staticCalleeName(&x.Call) == "interp.(*frame).runid" {
+							for _, ro := range origins(x.Call.Args[0], map[ssa.Value]bool{}) {
+								if isCaptured(ro) {
+									bad = true
+									r.Fail("R10.2", base+":runid-of-captured-frame:"+capturedName(ro), ic.pos(call.Pos()),
+										"the callback created by "+ssaFuncName(root)+" passes to newFrame the run id of "+describeValue(ro)+", a frame captured when the callback was created: after any later cancellation (stop advances the interpreter id) the function runs no statement and returns zero values")
+								}
 							}
+						}
+					default:
+						if isCaptured(o) {
+							bad = true
+							r.Fail("R10.2", base+":captured-id-value:"+capturedName(o), ic.pos(call.Pos()),
+								"the callback created by "+ssaFuncName(root)+" passes to newFrame an id read from "+describeValue(o)+", a value fixed when the callback was created: it is never refreshed, so after the first cancellation the function is dead for good, even after later successful evaluations")
 						}
 					}
 				}
-				r.Check(stale == "", "R10.2", key, ic.pos(call.Pos()), "the callback gates on the interpreter's current run id",
-					"the callback created by "+ssaFuncName(root)+" passes to newFrame the run id of "+stale+", a frame captured when the callback was created: after any later cancellation (stop advances the interpreter id) the function runs no statement and returns zero values")
+				if !bad {
+					r.Pass("R10.2", base, ic.pos(call.Pos()), "the callback gates on a run id read when it is entered")
+				}
 			}
 		}
 	}
@@ -139,3 +160,120 @@ func isCaptured(v ssa.Value) bool {
 
 var _ = strings.TrimSpace
 var _ types.Type
+
+func capturedName(v ssa.Value) string {
+	switch x := v.(type) {
+	case *ssa.FreeVar:
+		return x.Name()
+	case *ssa.UnOp:
+		return capturedName(x.X)
+	}
+	return "?"
+}
+
+// findRefresh returns the node performing interp.frame.setrunid(interp.runid()) in body,
+// directly or by calling a helper that always performs it.
+func findRefresh(ic *IC, body *ast.BlockStmt, frameFld *types.Var, helpers map[*types.Func]bool) ast.Node {
+	var refresh ast.Node
+	ast.Inspect(body, func(n ast.Node) bool {
+		c, ok := n.(*ast.CallExpr)
+		if !ok || refresh != nil {
+			return true
+		}
+		if f, ok := calleeOf(ic.Info, c).(*types.Func); ok && helpers[f] {
+			refresh = c
+			return true
+		}
+		if !isCallTo(ic.Info, c, "interp.frame.setrunid") || len(c.Args) != 1 {
+			return true
+		}
+		se := unparen(c.Fun).(*ast.SelectorExpr)
+		if selField(ic.Info, se.X) != frameFld {
+			return true
+		}
+		if a, ok := unparen(c.Args[0]).(*ast.CallExpr); ok && isCallTo(ic.Info, a, "interp.Interpreter.runid") {
+			refresh = c
+		}
+		return true
+	})
+	return refresh
+}
+
+func containsNode(outer, inner ast.Node) bool {
+	return outer.Pos() <= inner.Pos() && inner.End() <= outer.End()
+}
+
+// exitWithoutFromEntry reports whether some path from the function entry reaches an exit
+// without executing a node accepted by via.
+func exitWithoutFromEntry(fg *FlowGraph, via func(ast.Node) bool) bool {
+	if len(fg.G.Blocks) == 0 {
+		return true
+	}
+	seen := map[*cfg.Block]bool{}
+	var walk func(b *cfg.Block) bool
+	walk = func(b *cfg.Block) bool {
+		if seen[b] {
+			return false
+		}
+		seen[b] = true
+		for _, n := range b.Nodes {
+			if via(n) {
+				return false
+			}
+		}
+		if len(b.Succs) == 0 {
+			if len(b.Nodes) > 0 {
+				if es, ok := b.Nodes[len(b.Nodes)-1].(*ast.ExprStmt); ok {
+					if call, ok := es.X.(*ast.CallExpr); ok && noReturn(fg.Info, call) {
+						return false
+					}
+				}
+			}
+			return true
+		}
+		for _, s := range b.Succs {
+			if walk(s) {
+				return true
+			}
+		}
+		return false
+	}
+	return walk(fg.G.Blocks[0])
+}
+
+// c10R3: every reflect.Select of a run-time closure takes its cancellation case from the
+// frame it executes in (loaded at each execution). A done case cached in per-statement
+// state belongs to the evaluation that first ran the statement: once that evaluation has
+// been cancelled the channel is closed for good and the definition returns at once.
+func c10R3(ic *IC, r *Report) {
+	doneFld := ic.field("frame", "done")
+	if doneFld == nil {
+		r.Errorf("anchor not resolved: frame.done")
+		return
+	}
+	n := 0
+	cnt := map[string]int{}
+	for _, fn := range allSSAFuncs(ic.SP) {
+		for _, b := range fn.Blocks {
+			for _, ins := range b.Instrs {
+				call, ok := ins.(*ssa.Call)
+				if !ok || staticCalleeName(&call.Call) != "reflect.Select" {
+					continue
+				}
+				n++
+				root := ssaFuncName(fn)
+				if i := strings.Index(root, "$"); i > 0 {
+					root = root[:i]
+				}
+				cnt[root]++
+				key := fmt.Sprintf("%s/Select#%d/done-from-frame", root, cnt[root])
+				_, found := selectDoneIndex(call.Call.Args[0], doneFld)
+				r.Check(found, "R10.3", key, ic.pos(call.Pos()), "the cancellation case is loaded from the executing frame",
+					"no case of this reflect.Select is loaded from frame.done at execution time: a cancellation case kept from an earlier (cancelled) evaluation is closed for good, so this definition stops waiting and returns zero values in every later evaluation")
+			}
+		}
+	}
+	if n < 4 {
+		r.Errorf("R10.3: only %d reflect.Select sites found", n)
+	}
+}
